@@ -32,6 +32,7 @@ def main():
     scratch = "--scratch" in sys.argv   # work on a copy of /repo (VERIF_REPO) instead of /repo itself
     global REPO
     env = dict(os.environ)
+    env["VERIF_EVIDENCE_DIR"] = "/tmp/vseed-evidence"
     if scratch:
         REPO = "/tmp/vseed-repo"
         sh(["rm", "-rf", REPO])
